@@ -256,6 +256,9 @@ func c12Store(r *Rng) string { return Pick(r, []string{"rw", "sc"}) }
 func GenC12(seed uint64, run int) *Trace {
 	r := RunRng(seed, "C12", "session", run)
 	cfg := GenConfig(r, c12Store(r))
+	if cfg.Store == "rw" {
+		cfg.SameHandle = r.Chance(1, 4)
+	}
 	t := &Trace{Prop: "C12", Engine: "session", Seed: seed, Run: run, Cfg: cfg}
 	alpha := genAlphabet(r, r.Range(1, 6), r.Chance(1, 10))
 	if r.Chance(1, 2500) {
